@@ -33,6 +33,7 @@ META = {
     ],
 }
 
+KF_VANISHED = "kf_vanished_file_aborts_semgrep_scan"
 KINDS = ["invalid_utf8", "nul_byte", "syntax_error", "empty_file", "transform_raises", "deleted_after_listing"]
 CONTENT = {"invalid_utf8": b"\xff\xfe x = 1\n", "nul_byte": b"x = 1\x00\n", "syntax_error": b"def (:\n    pass\n", "empty_file": b""}
 UNPROCESSABLE = {"invalid_utf8", "nul_byte", "syntax_error", "transform_raises", "deleted_after_listing"}
@@ -87,10 +88,12 @@ def fault_points(ctx):
         for i in range(len(names)):
             for k in KINDS:
                 pts.append((p1, PAIRS_QUICK[0], k, names[i]))
-        p2 = make_project(rng, PAIRS_QUICK[1], 4)
+        p2 = make_project(rng, PAIRS_QUICK[1], rng.choice([3, 4]))
         names2 = rc.py_files(p2)
-        for k in KINDS:
-            pts.append((p2, PAIRS_QUICK[1], k, names2[rng.randrange(len(names2))]))
+        for i in range(len(names2)):
+            for k in KINDS:
+                if len(names2) == 3 or rng.random() < 0.6:
+                    pts.append((p2, PAIRS_QUICK[1], k, names2[i]))
         if getattr(ctx, "deep", False):
             for pair in PAIRS_MORE[:2]:
                 p = make_project(rng, pair, 3)
@@ -130,6 +133,13 @@ def compare(ctx, pt, faulty, ref, root_f, root_r, tree_f, tree_r):
         ok = False
         ctx.violation(cls, f"{name} {list(pair)}: {what}", {**replay, **(extra or {})})
 
+    if (faulty["rc"] != 0 and kind == "deleted_after_listing" and "CalledProcessError" in faulty["stderr"]
+            and "'semgrep', 'scan'" in faulty["stderr"] and bad in faulty["stderr"]):
+        # narrow class: the vanished file had been flagged by the prefilter for a semgrep-detected codemod of the run; that
+        # codemod's detector hands the missing path to `semgrep scan`, which exits 2 -> CalledProcessError -> no report
+        viol(KF_VANISHED, f"exit status {faulty['rc']}, no report: `semgrep scan {bad}` on the vanished file raised CalledProcessError "
+                          f"in SemgrepRuleDetector.apply; the run is aborted")
+        return ok, None, None
     if faulty["rc"] != 0:
         viol("kf_c10_exit_status", f"exit status {faulty['rc']} (expected 0): {faulty['stderr'][-400:]}")
     if not isinstance(faulty["report"], dict):
@@ -198,6 +208,10 @@ def model_term(pt, rows_f, rows_r, tree_f, tree_r, rc_status):
         bad_content = CONTENT.get(kind, files[bad].encode())
         raise_on = [badc(bad_content)] if kind == "transform_raises" else []
         flag = [x for x, _, _ in T]
+        # oracle value S(K, bad file): semgrep's verdict on the bad file is observed (the codemod lists it iff its rule matched there)
+        rf = next((x for x in rows_f if x["codemod"] == k), None)
+        if rc.det_of(k) == "DSemgrep" and rf is not None and bad in rf["failed"]:
+            flag.append(badc(bad_content))
         cms.append(rc.c_hcodemod(A, k, rc.det_of(k), T, raise_on, flag))
         if adds:
             # with two dependency-adding codemods the intermediate manifest text is not observable; only one adds here
